@@ -14,7 +14,19 @@ structure TinyLfu where
   w : Nat
 deriving Repr
 
+/-- executable well-formedness of the geometry (checked by the driver on every constructed estimator) -/
+def Sketch.wfb (s : Sketch) : Bool :=
+  s.rows.all (fun r => r.all (fun b => decide (b < 256)) && decide (s.mask.toNat / 2 < r.length)) &&
+  (match s.scheme with | .std seeds => decide (s.rows.length ≤ seeds.length) | .core => true) &&
+  !s.rows.isEmpty
+
+def Bloom.wfb (b : Bloom) : Bool :=
+  decide (b.shift < 64) && decide (b.sizeMask >>> 6 < b.bits.length) &&
+  decide (b.setLocs * 2 ^ (64 - b.shift) + 2 ^ (64 - b.shift) ≤ 2 ^ 64) && decide (0 < b.setLocs)
+
 namespace TinyLfu
+
+def wfb (t : TinyLfu) : Bool := t.sketch.wfb && t.door.wfb
 
 /-- `estimate_hashed_key`: sketch minimum, plus one if the doorkeeper holds the hash -/
 def estimate (t : TinyLfu) (h : UInt64) : Res Nat :=
